@@ -53,6 +53,18 @@ run_ctx = dict(pre=LOGS + [
     (r'\bshouldStop\b', '(*shouldStop)'),
 ])
 
+# acquire_completion_queue_items: the locals shared by the loop segments (event array, completion queue) are lifted to statics of the
+# same name (their declarations are dropped); epoll_wait / read / throw_ -> stubs
+acq_ctx = dict(pre=LOGS + [
+    (r'epoll_event completions\[io_epoll_max_event_count\];', ''),
+    (r'operation_queue completionQueue;', 'completionQueue = IQ_default();'),
+    (r'epoll_wait\(\s*epollFd_\.get\(\),\s*completions,\s*io_epoll_max_event_count,\s*([^;]*)\);', r'EV_epoll_wait(this, \1);'),
+    (r'throw_\(std::system_error\{errorCode, std::system_category\(\), "epoll_wait"\}\);', '{ EV_throw(errorCode); return; }'),
+    (r'\bread\(remoteQueueEventFd_\.get\(\), &buffer, sizeof\(buffer\)\)', 'EV_eventfd_read(this, &buffer, sizeof(buffer))'),
+    (r'\bread\(timerFd_\.get\(\), &buffer, sizeof\(buffer\)\)', 'EV_timerfd_read(this, &buffer, sizeof(buffer))'),
+    (r'currentDueTime_\.reset\(\);', 'EV_currentDueTime_reset(this);'),
+])
+
 SPEC = dict(
     properties=['C14'],
     ctx=ctx,
@@ -80,11 +92,15 @@ SPEC = dict(
         'signal_remote_queue': dict(file=CPP, sig=r'void io_epoll_context::signal_remote_queue\(\)'),
         'execute_pending_local': dict(file=CPP, sig=r'void io_epoll_context::execute_pending_local\(\) noexcept', ctx=epl_ctx, outline={0: 'VF_EPL_LOOP;'}),
         'try_schedule': dict(file=CPP, sig=r'bool io_epoll_context::try_schedule_local_remote_queue_contents\(\) noexcept'),
+        'max_event_count': dict(file=CPP, kind='expr', sig=r'static constexpr std::uint32_t io_epoll_max_event_count = ([^;]*);'),
+        'remote_queue_event_user_data': dict(file=CPP, kind='expr', sig=r'static constexpr void\* remote_queue_event_user_data = ([^;]*);'),
+        'timer_user_data': dict(file=H, sig=r'void\* timer_user_data\(\) const', within=CTXC, ctx=dict(members=['timers_'])),
+        'acquire': dict(file=CPP, sig=r'void io_epoll_context::acquire_completion_queue_items\(\)', ctx=acq_ctx, outline={0: 'VF_ACQ_LOOP;'}),
         'run_impl': dict(file=CPP, sig=r'void io_epoll_context::run_impl\(const bool& shouldStop\)', ctx=run_ctx, outline={0: 'VF_RUN_LOOP;'}),
     },
     closed_world=[
         dict(file=CPP, members=['remoteQueueReadSubmitted_', 'remoteQueue_', 'localQueue_', 'enqueued_'],
-             allow=[r'(?s)void io_epoll_context::acquire_completion_queue_items\(\) \{.*?\n\}']),   # classified: summarised by a stub contract (see assumptions)
+             allow=[]),
         dict(file=H, members=['remoteQueueReadSubmitted_', 'remoteQueue_', 'localQueue_'], within=CTXC,
              allow=[r'operation_queue localQueue_;', r'bool remoteQueueReadSubmitted_ = false;',
                     r'atomic_intrusive_queue<operation_base, &operation_base::next_> remoteQueue_;']),
@@ -99,6 +115,8 @@ SPEC = dict(
         dict(name='execute_pending_local_body', harness='h_epl_loop0_body', enforce='epl__loop0_body'),
         dict(name='try_schedule', harness='h_try_schedule', enforce='CTX_try_schedule_local_remote_queue_contents',
              replace=['CTX_schedule_local_q']),
+        dict(name='acquire', harness='h_acquire', enforce='CTX_acquire_completion_queue_items', replace=['CTX_schedule_local_q']),
+        dict(name='acquire_body', harness='h_acq_loop0_body', enforce='acq__loop0_body'),
         dict(name='run_impl', harness='h_run_impl', enforce='CTX_run_impl'),
         dict(name='run_impl_body', harness='h_run_loop0_body', enforce='run__loop0_body',
              replace=['CTX_execute_pending_local', 'CTX_try_schedule_local_remote_queue_contents', 'CTX_acquire_completion_queue_items']),
@@ -114,9 +132,12 @@ SPEC = dict(
         'enqueued_ == 0 and its publication); the code asserts the same',
         'write() on the eventfd succeeds (a failing write reaches std::terminate: the counter would have to overflow 2^64-2); the eventfd stays '
         'readable until the loop reads it; real epoll_wait / eventfd / timerfd behaviour is not modelled',
-        'acquire_completion_queue_items (epoll_wait + dispatch loop over a 256-entry event array) is classified, not extracted: the loop body of '
-        'run_impl is verified against the stub contract "blocks only with remoteQueueReadSubmitted_ set; clears the flag only after reading an '
-        'eventfd wake-up, i.e. after some producer replaced the inactive sentinel"; its ++enqueued_/push_back of ready completion items is unchecked',
+        'acquire_completion_queue_items: epoll_wait returns 0..256 events, each one of {remote-queue eventfd, timerfd, a registered completion item}; '
+        'a reported completion item is not already queued (it was executed, and its registration removed or re-armed, before the next epoll_wait: '
+        'execute_pending_local drains the whole local queue first) -- the code asserts the same; the eventfd is readable only after a producer wrote it, '
+        'which by schedule_remote\'s contract happens only after that producer replaced the inactive sentinel, and the loop does not re-install the sentinel '
+        'while remoteQueueReadSubmitted_ is set (lemma_epoll_wake): the stub of read(eventfd) therefore reports the queue word as not-inactive; '
+        'read() on the eventfd / timerfd succeeds with 8 bytes',
         'update_timers is an event stub here (group epoll_timer)',
         'M2 meta-argument: the local queue window (empty / one node / head .. tail with opaque middle) enumerates every shape of a well-formed '
         'intrusive_queue; appending at the tail and popping at the head is FIFO; every queued item has enqueued_ == 1 and a continuation '
